@@ -26,7 +26,14 @@
 // mutating call; MemFS+user makes the calls as a non-administrator user in a
 // world with root-owned, unsearchable and unreadable objects, so that the base
 // refuses reads and mutations at various depths: every failing path of every
-// call must translate its error paths. No sampling, no fault injection.
+// call must translate its error paths; <fs>+name:<class> gives the base
+// directory a name that means something to code that interprets strings - a
+// glob pattern ('a*', 'who?', 'pub[1]', 'a\b'), a malformed one ('x[') - with a
+// sibling OUTSIDE B whose name that pattern matches ('a*b', 'whom', 'pub1',
+// 'ab'), and repeats the text of the base path inside B (/top/b/top/b/f): the
+// alphabet is spelled for that world (segment "b" = the base's name, "bb" = the
+// sibling's) and everything that takes a pattern or returns paths is judged
+// against the twin as elsewhere. No sampling, no fault injection.
 //
 // Oracle on every call:
 //  1. everything outside B in the base (node-graph lines of VerifDump + exact
@@ -94,7 +101,7 @@ func main() {
 	tier := flag.String("tier", "quick", "")
 	depth := flag.Int("depth", 0, "history length bound (default: 2 quick, 3 thorough)")
 	systems := flag.String("systems", "MemFS,OrefaFS", "")
-	variants := flag.Bool("variants", true, "also explore, for every system, the base-path spellings (<fs>@<class>) and, over MemFS, the links leaving B (MemFS+out-links), the read-only base (MemFS+ro) and the non-administrator user (MemFS+user)")
+	variants := flag.Bool("variants", true, "also explore, for every system, the base-path spellings (<fs>@<class>) and, over MemFS, the links leaving B (MemFS+out-links), the read-only base (MemFS+ro) and the non-administrator user (MemFS+user), and the names of the base directory (<fs>+name:<class>)")
 	replay := flag.String("replay", "", "re-execute a replay file and print what happens")
 
 	bench := flag.String("selfbench", "", "development aid: expand the initial state of the named base in-process; -prof writes a CPU profile")
@@ -198,6 +205,17 @@ func main() {
 				for _, v := range []string{"+out-links", "+ro", "+user"} {
 					vs = append(vs, sn+v)
 					maxDepth[sn+v] = 1
+				}
+			}
+
+			// the name of the base directory (ops.go, nameWorlds): over MemFS as
+			// deep as the spellings of the base path, over OrefaFS one level less
+			for _, w := range nameWorlds {
+				v := sn + "+name:" + w.Class
+				vs = append(vs, v)
+
+				if sn != "MemFS" {
+					maxDepth[v] = d - 1
 				}
 			}
 
@@ -370,6 +388,10 @@ func main() {
 
 	bound += fmt.Sprintf("; variant systems: for every base type the wrapper built with each spelling of B in %v (a relative one from the base's cwd /top) - first level reduced to the %d operations that are not single-path calls on strings of more than 2 segments, next levels only from the states in which the base's cwd has moved to a cleanly spelled directory -, and MemFS+out-links with the links %v in B, first level (same %d operations) only; MemFS+ro: BasePathFS(rofs.New(base)) against rofs.New(reference), the whole first level; MemFS+user: base and reference with an identity manager, calls made by the non-administrator user %q in a world with %s, first level = the same %d operations, which include %d strings and %d pairs naming that world", spellingList(), compactOps(ops), outLinks, compactOps(ops), userName, "w (the user's) holding w/f (the user's) and the root-owned non-empty w/locked, the root-owned 0700 directory p with p/f, the root-owned 0600 file s, everything else root-owned 0755/0644", compactOps(ops), len(userStrings), len(userPairs))
 
+	nameDepth := fmt.Sprintf("over MemFS as deep as the spellings of B (first level, then up to history length %d from the states in which the base's cwd has moved), over OrefaFS one level less (history length <= %d)", d, d-1)
+
+	bound += fmt.Sprintf("; <fs>+name:<class>, %s: B=/top/<name> with the sibling /top/<sibling> (dir k, file f) outside B instead of %s, for (class, name, sibling) in %q, B and the reference's root holding in addition %s/f spelled for that world (the text of the base path once more inside B); first level = the same %d operations with every segment \"b\" of their operands, patterns, Sub directories, link targets and base.Chdir targets replaced by <name> and every segment \"bb\" by <sibling>, which include %d strings x the single-path calls naming the nested copy and patterns over it (%q; executed in these worlds only, skipped and not counted elsewhere)", nameDepth, siblingPath, nameWorlds, nestedDir[1:], compactOps(ops), len(nameStrings), nameStrings)
+
 	e := ev.Evidence{
 		PropertyID: *id, Tier: *tier, Seed: ev.Seed(), Level: "model_checking",
 		Coverage: map[string]any{
@@ -399,8 +421,9 @@ func main() {
 			"where the reference itself panics or deadlocks on a call (kind note:ref-defect) or cannot address its root (OrefaFS, kind note:ref-root-unaddressable) nothing is demanded of the outcome; the outside-B snapshot and the leak test still apply",
 			"views returned by Sub are obtained and used inside one step (no view survives a step) for d in /a and /; over an OrefaFS base Sub is refused on both sides and nothing follows. A view that does not advertise FeatSymlink is expected to refuse Symlink/Readlink/EvalSymlinks as the wrapper does (EPERM, arguments as given, no effect); otherwise every call through the view, and every later call through the wrapper on what was created through it, must have the outcome and effect of the same call on the reference's Sub view / the reference. A read through the wrapper or a view that returns what the base holds at the place the operand or link target names in the BASE's namespace, outside B (outside the view), is kind outside-read; signatures of these steps have call Sub:<call> or SubLink[W].<sub-call>, path sub:<class> or link:abs|rel,<escape|view-existing|view-missing>, reach inside|above-view|outside-existing|outside-missing",
 			"symbolic links exist only over a MemFS base (OrefaFS has none: the operations naming them are skipped there and not counted); they are made through the base (and through the reference, same target strings) at setup, never between calls; the wrapper itself refuses Symlink/Readlink/EvalSymlinks, so link targets are compared through the node graphs, and the targets printed by the dump of a Sub view are left out",
-			"variant systems share the reference, hence the verdict, of the main ones; their signatures carry variant=basepath:<class> | out-links. In the out-links world the reference holds links with the same target strings, which there name its own namespace (absolute) or stop at its root (climbing), as in a chroot: a call through such a link that the base resolves outside B is kind outside-read / outside-changed (reach outside-via-link when the operand's own path stays in B)",
+			"variant systems share the reference, hence the verdict, of the main ones; their signatures carry variant=basepath:<class> | out-links | name:<class> (the reference of a name world holds the nested copy too). In the out-links world the reference holds links with the same target strings, which there name its own namespace (absolute) or stop at its root (climbing), as in a chroot: a call through such a link that the base resolves outside B is kind outside-read / outside-changed (reach outside-via-link when the operand's own path stays in B)",
 			"failures of the base are produced only by file systems of the library used as they are - the read-only view rofs.New (variant ro: every mutating call refused) and MemFS's own permission checks for a non-administrator user (variant user) -, never by fault injection (no FailFS); in both variants the reference is built the same way (rofs.New(standalone), same user in the same world), so outcome kinds, effects and error paths are compared as everywhere else; signatures carry variant=ro|user; an error path that names an entry of the directory the reference's error names is classed entry-of-virtual-path",
+			"variants name:<class>: the name of the base directory is chosen among names that are legitimate for the file system (Linux type: any byte but '/' and NUL) and mean something as a glob pattern; the operations are those of the alphabet, written for B=/top/b and its sibling /top/bb and spelled for the world by replacing whole segments (\"b\" -> <name>, \"bb\" -> <sibling>), so the virtual namespace also gets entries named like the base directory and patterns made of its name; the reference receives the same spelled strings; signatures are written in the alphabet's spelling (FileInfo.Name of the base directory is reported as name=b) and carry variant=name:<class>, basecwd=pattern-sibling when the base's cwd is in a sibling that is not a prefix sibling; replays name the operation in the alphabet's spelling, the detail gives op_as_spelled",
 			"file handles are exercised inside compound operations (Open/OpenFile, methods, Close): no handle survives a step",
 		},
 		Violations: rep.NewCount(),
